@@ -293,6 +293,14 @@ impl MT104 {
         let field_71g = parser.parse_optional_field::<Field71G>("71G")?;
         let field_53 = parser.parse_optional_variant_field::<Field53SenderCorrespondent>("53")?;
 
+        // The repetitive sequence is mandatory: at least one occurrence
+        // (left-over content is reported by the completeness check that follows)
+        if transactions.is_empty() && parser.is_complete() {
+            return Err(crate::errors::ParseError::InvalidFormat {
+                message: "MT104: At least one transaction (sequence B, field 21) is required".to_string(),
+            });
+        }
+
         // Verify all content is consumed
         verify_parser_complete(&parser)?;
 
